@@ -719,6 +719,157 @@ fn s_m_reent_key() -> Shape<(Recv, Looked)> {
     Shape { name: "s_m_reent_key", sync_name: "km_reent_key", async_name: "kma_reent_key", sync_call: |t| t.0.km_reent_key(t.1.clone()), async_call: |t| vhooks::block_on(t.0.kma_reent_key((t.1).0)) }
 }
 
+// ------------------------------------------------------------------------------------------
+// function item forms: the signature analysis of the macros must carry every argument into the
+// key whatever the item looks like - explicit lifetimes, generics with bounds
+// and where-clauses (one instantiation each), methods of a generic type, thirteen arguments
+// (`mut` bindings are not accepted by the macros on the unchanged tree, so there is no such shape)
+// ------------------------------------------------------------------------------------------
+#[cache]
+pub fn k_form_life<'a, 'b>(a: &'a str, b: &'b [u32], c: &'a String) -> u64 {
+    let _ = (a, b, c);
+    next_serial()
+}
+#[cache_async]
+pub async fn ka_form_life<'a, 'b>(a: &'a str, b: &'b [u32], c: &'a String) -> u64 {
+    let _ = (a, b, c);
+    next_serial()
+}
+fn s_form_life() -> Shape<(String, Vec<u32>, String)> {
+    Shape { name: "s_form_life", sync_name: "k_form_life", async_name: "ka_form_life", sync_call: |t| k_form_life(t.0.as_str(), &t.1[..], &t.2), async_call: |t| vhooks::block_on(ka_form_life(t.0.as_str(), &t.1[..], &t.2)) }
+}
+#[cache]
+pub fn k_form_gen<T: std::fmt::Debug + Clone + cachelito_core::CacheableKey, U>(a: T, b: U, c: u8) -> u64
+where
+    U: std::fmt::Debug + Clone + cachelito_core::CacheableKey,
+{
+    let _ = (a, b, c);
+    next_serial()
+}
+#[cache_async]
+pub async fn ka_form_gen<T: std::fmt::Debug + Clone + Send, U>(a: T, b: U, c: u8) -> u64
+where
+    U: std::fmt::Debug + Clone + Send,
+{
+    let _ = (a, b, c);
+    next_serial()
+}
+fn s_form_gen() -> Shape<(String, i64, u8)> {
+    Shape { name: "s_form_gen", sync_name: "k_form_gen", async_name: "ka_form_gen", sync_call: |t| k_form_gen::<String, i64>(t.0.clone(), t.1, t.2), async_call: |t| vhooks::block_on(ka_form_gen::<String, i64>(t.0.clone(), t.1, t.2)) }
+}
+#[derive(Debug, Clone, PartialEq)]
+pub struct GenRecv<T> {
+    pub inner: T,
+    pub n: u8,
+}
+impl<T: std::fmt::Debug> cachelito_core::DefaultCacheableKey for GenRecv<T> {}
+impl<T: vhooks::Dg> vhooks::Dg for GenRecv<T> {
+    fn dg(&self, h: &mut vhooks::Hs) {
+        h.byte(109);
+        self.inner.dg(h);
+        self.n.dg(h);
+    }
+}
+impl<T: Adv> Adv for GenRecv<T> {
+    fn gen(r: &mut Rng) -> Self {
+        GenRecv { inner: T::gen(r), n: u8::gen(r) % 3 }
+    }
+    fn mutate(&self, r: &mut Rng) -> Self {
+        if r.chance(1, 2) {
+            GenRecv { inner: self.inner.mutate(r), n: self.n }
+        } else {
+            GenRecv { inner: self.inner.clone(), n: self.n.wrapping_add(1) % 3 }
+        }
+    }
+}
+impl<T: std::fmt::Debug + Clone + Send + Sync> GenRecv<T> {
+    #[cache]
+    pub fn km_form_gen(&self, a: u32, b: String) -> u64 {
+        let _ = (a, b);
+        next_serial()
+    }
+    #[cache_async]
+    pub async fn kma_form_gen(&self, a: u32, b: String) -> u64 {
+        let _ = (a, b);
+        next_serial()
+    }
+}
+fn s_m_form_gen() -> Shape<(GenRecv<String>, u32, String)> {
+    Shape { name: "s_m_form_gen", sync_name: "km_form_gen", async_name: "kma_form_gen", sync_call: |t| t.0.km_form_gen(t.1, t.2.clone()), async_call: |t| vhooks::block_on(t.0.kma_form_gen(t.1, t.2.clone())) }
+}
+#[cache]
+#[allow(clippy::too_many_arguments)]
+pub fn k_form_many(a0: u8, a1: u8, a2: u8, a3: u8, a4: u8, a5: String, a6: u8, a7: u8, a8: u8, a9: u8, a10: String, a11: u8, a12: u8) -> u64 {
+    let _ = (a0, a1, a2, a3, a4, a5, a6, a7, a8, a9, a10, a11, a12);
+    next_serial()
+}
+#[cache_async]
+#[allow(clippy::too_many_arguments)]
+pub async fn ka_form_many(a0: u8, a1: u8, a2: u8, a3: u8, a4: u8, a5: String, a6: u8, a7: u8, a8: u8, a9: u8, a10: String, a11: u8, a12: u8) -> u64 {
+    let _ = (a0, a1, a2, a3, a4, a5, a6, a7, a8, a9, a10, a11, a12);
+    next_serial()
+}
+type Many = ((u8, u8, u8, u8, u8), (String, u8, u8, u8, u8), (String, u8, u8));
+fn s_form_many() -> Shape<Many> {
+    Shape {
+        name: "s_form_many", sync_name: "k_form_many", async_name: "ka_form_many",
+        sync_call: |t: &Many| k_form_many((t.0).0, (t.0).1, (t.0).2, (t.0).3, (t.0).4, (t.1).0.clone(), (t.1).1, (t.1).2, (t.1).3, (t.1).4, (t.2).0.clone(), (t.2).1, (t.2).2),
+        async_call: |t: &Many| vhooks::block_on(ka_form_many((t.0).0, (t.0).1, (t.0).2, (t.0).3, (t.0).4, (t.1).0.clone(), (t.1).1, (t.1).2, (t.1).3, (t.1).4, (t.2).0.clone(), (t.2).1, (t.2).2)),
+    }
+}
+/// documented, attributed and restricted-visibility items inside a nested module
+pub mod forms {
+    use super::next_serial;
+    use cachelito::cache;
+    use cachelito_async::cache_async;
+    /// doc comment before the attribute
+    #[inline(never)]
+    #[cache]
+    #[allow(unused_variables)]
+    /// doc comment after the attribute
+    pub(crate) fn k_form_attr(a: i16, b: &str) -> u64 {
+        next_serial()
+    }
+    /// doc comment before the attribute
+    #[cache_async]
+    #[allow(unused_variables)]
+    pub(super) async fn ka_form_attr(a: i16, b: &str) -> u64 {
+        next_serial()
+    }
+}
+fn s_form_attr() -> Shape<(i16, String)> {
+    Shape { name: "s_form_attr", sync_name: "k_form_attr", async_name: "ka_form_attr", sync_call: |t| forms::k_form_attr(t.0, t.1.as_str()), async_call: |t| vhooks::block_on(forms::ka_form_attr(t.0, t.1.as_str())) }
+}
+
+// underscore-prefixed parameter names only silence the unused-variable lint: the body may read
+// them all the same, so they are arguments like any other
+#[cache]
+pub fn k_form_under(_a: i64, b: u8, _prefix: String, __c: u16) -> u64 {
+    let _ = (_a, b, &_prefix, __c);
+    next_serial()
+}
+#[cache_async]
+pub async fn ka_form_under(_a: i64, b: u8, _prefix: String, __c: u16) -> u64 {
+    let _ = (_a, b, &_prefix, __c);
+    next_serial()
+}
+fn s_form_under() -> Shape<(i64, u8, String, u16)> {
+    Shape { name: "s_form_under", sync_name: "k_form_under", async_name: "ka_form_under", sync_call: |t| k_form_under(t.0, t.1, t.2.clone(), t.3), async_call: |t| vhooks::block_on(ka_form_under(t.0, t.1, t.2.clone(), t.3)) }
+}
+impl Recv {
+    #[cache]
+    pub fn km_form_under(&self, _zone: u8, _s: String) -> u64 {
+        next_serial()
+    }
+    #[cache_async]
+    pub async fn kma_form_under(&self, _zone: u8, _s: String) -> u64 {
+        next_serial()
+    }
+}
+fn s_m_form_under() -> Shape<(Recv, u8, String)> {
+    Shape { name: "s_m_form_under", sync_name: "km_form_under", async_name: "kma_form_under", sync_call: |t| t.0.km_form_under(t.1, t.2.clone()), async_call: |t| vhooks::block_on(t.0.kma_form_under(t.1, t.2.clone())) }
+}
+
 fn listing_len(name: &str) -> Option<usize> {
     let n = std::cell::Cell::new(0usize);
     let ok = cachelito_core::invalidate_with(name, |_| {
@@ -838,7 +989,7 @@ fn main() {
     let pairs: u64 = std::env::var("VERIF_KEY_PAIRS").ok().and_then(|s| s.parse().ok()).unwrap_or(if tier == "thorough" { 400_000 } else { 6_000 });
     let mut rng = Rng::new(seed.wrapping_mul(0x9E37_79B9) ^ ((shard.0 as u64) << 32));
     macro_rules! go { ($($s:ident),*) => { $( { let sh = $s(); let mut r = rng.fork(hash_str(sh.name)); run_shape(&sh, &mut rep, &mut r, pairs); rep.count("C02", "shapes_x_flavours", 2); } )* } }
-    go!(s_string, s_str, s_i64, s_f64, s_char, s_optstr, s_vecstr, s_tup, s_optopt, s_slice, s_users, s_usere, s_str2, s_ref2, s_int2, s_u64x2, s_strint, s_intstr, s_char2, s_f64x2, s_optstr_str, s_vec2, s_boolstr, s_str3, s_u8x3, s_five, s_m_ref, s_m_noarg, s_m_int2, s_u128, s_i8x3, s_f32x2, s_nested, s_optvec, s_vecopt, s_sos, s_vecint2, s_usize_str, s_m_val, s_m_mut, s_names1, s_names2, s_names3, s_names4, s_names5, s_names6, s_names7, s_names8, s_i128, s_vecwide, s_pat_tup, s_pat_mix, s_pat_struct, s_m_pat, s_reent_key, s_m_reent_key);
+    go!(s_string, s_str, s_i64, s_f64, s_char, s_optstr, s_vecstr, s_tup, s_optopt, s_slice, s_users, s_usere, s_str2, s_ref2, s_int2, s_u64x2, s_strint, s_intstr, s_char2, s_f64x2, s_optstr_str, s_vec2, s_boolstr, s_str3, s_u8x3, s_five, s_m_ref, s_m_noarg, s_m_int2, s_u128, s_i8x3, s_f32x2, s_nested, s_optvec, s_vecopt, s_sos, s_vecint2, s_usize_str, s_m_val, s_m_mut, s_names1, s_names2, s_names3, s_names4, s_names5, s_names6, s_names7, s_names8, s_i128, s_vecwide, s_pat_tup, s_pat_mix, s_pat_struct, s_m_pat, s_reent_key, s_m_reent_key, s_form_life, s_form_gen, s_m_form_gen, s_form_many, s_form_attr, s_form_under, s_m_form_under);
     rep.notes.push(format!("keymon shard {}/{} seed {} tier {} pairs/shape {} wall {:.2}s", shard.0, shard.1, seed, tier, pairs, t0.elapsed().as_secs_f64()));
     rep.write(&out);
 }
